@@ -126,6 +126,33 @@ func runSuffix(s *Script, rec *Rec) {
 				e["lcps"] = [][]int{}
 			}
 			rec.Emit(e)
+		case "trsort":
+			// the whole rank sort on an input enumerated by TrSortMC.tla
+			// (verif export VerifTrSort); the ranks at the start of every
+			// round come from the VerifStage hook
+			toI := func(v any) []int32 {
+				a, _ := v.([]any)
+				out := make([]int32, len(a))
+				for i, x := range a {
+					out[i] = int32(num(x))
+				}
+				return out
+			}
+			sa, isa := toI(op["sa"]), toI(op["isa"])
+			e := Event{"op": name, "sa": i32(sa), "isa": i32(isa), "thr": int(num(op["thr"]))}
+			rounds := [][]int{}
+			suffix.VerifStage = func(stage int, a []int32) {
+				if stage == 7 {
+					rounds = append(rounds, i32(a))
+				}
+			}
+			ok := rec.Call(name, func() { suffix.VerifTrSort(sa, isa, int(num(op["thr"]))) })
+			suffix.VerifStage = nil
+			if !ok {
+				return
+			}
+			e["sa_after"], e["isa_after"], e["rounds"] = i32(sa), i32(isa), rounds
+			rec.Emit(e)
 		case "sortprim":
 			// trHeapSort / trInsertionSort on an input enumerated by
 			// SortPrims.tla (verif export VerifTrSortPrim)
